@@ -10,7 +10,7 @@ from pbt import grammar as G
 from pbt import refmodel as R
 from pbt import values as V
 from pbt import ieee
-from pbt.mutate import byte_inputs, mutated
+from pbt.mutate import byte_inputs, mutated, padded_tails, spec_tokens
 from pbt.harness import Failure, call, short
 
 RULE = ("core-fragment spec trees (generated, sound by construction) x values and x byte strings (random, boundary, canonical, "
@@ -389,7 +389,7 @@ def values_oracle(ctx):
 
 
 def campaign_values(ctx):
-    ctx.search(V.cases(frag=V.CORE, depth=3).map(list), values_oracle(ctx), ctx.budget(10000, 160000))
+    ctx.search(V.cases(frag=V.CORE | {"bitwise", "bitstruct", "bytewise", "byteswapped", "bitsswapped", "bittail"}, depth=3).map(list), values_oracle(ctx), ctx.budget(10000, 160000))
 campaign_values.shards = (4, 16)
 
 
@@ -400,7 +400,11 @@ def bytes_cases(draw):
         canonical = R.ref_build(spec, value, params)
     except (R.Reject, R.ForeignError):
         canonical = None
-    data = draw(byte_inputs(canonical))
+    tokens = spec_tokens(spec)
+    if canonical is not None and tokens and draw(st.integers(0, 4)) == 0:
+        data = draw(padded_tails(canonical, tokens))
+    else:
+        data = draw(byte_inputs(canonical))
     return [spec, params, data, draw(st.integers(0, 2))]
 
 
